@@ -64,6 +64,8 @@ class C09(framework.PropertyCheck):
                 yield {'k': k, 'op': rng.choice(['bor', 'band', 'bxor']), 'args': [self.big(rng) for _ in range(rng.choice([1, 2, 2, 3]))]}
             elif k == 'slice':
                 x = self.big(rng, neg=False)
+                if rng.random() < 0.3:
+                    x = -x - rng.choice([0, 1, 2])          # two's complement: infinitely many leading ones
                 h = rng.randint(0, 260)
                 l = rng.randint(0, h)
                 m = rng.randint(l, h)
@@ -93,7 +95,8 @@ class C09(framework.PropertyCheck):
 
     def _vcd(self, w, v):
         vf = {'header': [['scope', 'module', 'top'], ['var', 'wire', w, '!', 's', None], ['upscope']],
-              'dump': [['time', 0], ['vector', bin(v)[2:], '!'], ['time', 5], ['vector', bin(v)[2:].rjust(w, '0'), '!']]}
+              'dump': [['time', 0], ['vector', bin(v)[2:], '!'], ['time', 5], ['vector', bin(v)[2:].rjust(w, '0'), '!'],
+                       ['time', 9], ['vector', bin(v ^ 5)[2:], '!']]}
         return gen_trace.render(vf)
 
     def _plan(self, c):
@@ -158,8 +161,13 @@ class C09(framework.PropertyCheck):
         if k == 'sig':
             w, v, a = c['w'], c['v'], c['add']
             want = ('L', True, (I(v), I(v + a), I(v * 3), I(py_slice(v, w - 1, w - 1)), ('B', True), I(v), I(v & a if a >= 0 else v & a)))
+            v2 = v ^ 5
+            # the same reads again after the samples have been re-indexed (index 0 is now the third sample)
+            want2 = ('L', True, (I(v2), I(v2 + a), I(py_slice(v2, w - 1, w - 1)), I(v)))
             return ([('loadvcd', 't0', self._vcd(w, v)),
-                     ('eval', 'eor', f'(list top.s (+ top.s {a}) (* top.s 3) top.s[{w - 1}] (= top.s {v}) top.s@1 (band top.s {a}))')], [(1, want)])
+                     ('eval', 'eor', f'(list top.s (+ top.s {a}) (* top.s 3) top.s[{w - 1}] (= top.s {v}) top.s@1 (band top.s {a}))'),
+                     ('eval', 'eor', "(sample-at '(2 0))"),
+                     ('eval', 'eor', f'(list top.s (+ top.s {a}) top.s[{w - 1}] top.s@1)')], [(1, want), (3, want2)])
         raise ValueError(k)
 
     def steps(self, case):
